@@ -948,6 +948,34 @@ fn main() {
         par::main();
         return;
     }
+    if args.iter().any(|a| a == "--bitset") {
+        // scripts for the crate's internal bit set (hook `World::verif_bitset_script`): `=== name` starts a script,
+        // one output line per operation line
+        use std::io::Read;
+        let mut text = String::new();
+        std::io::stdin().read_to_string(&mut text).unwrap();
+        let mut cur = String::new();
+        let mut outp = String::new();
+        let flush = |cur: &mut String, outp: &mut String| {
+            if !cur.is_empty() {
+                outp.push_str(&World::verif_bitset_script(cur.trim_end_matches('\n')));
+                cur.clear();
+            }
+        };
+        for line in text.lines() {
+            if line.starts_with("===") {
+                flush(&mut cur, &mut outp);
+                outp.push_str(line);
+                outp.push('\n');
+            } else if !line.trim().is_empty() {
+                cur.push_str(line);
+                cur.push('\n');
+            }
+        }
+        flush(&mut cur, &mut outp);
+        print!("{outp}");
+        return;
+    }
     let stdin = std::io::stdin();
     let stdout = std::io::stdout();
     let mut out = std::io::BufWriter::new(stdout.lock());
